@@ -128,6 +128,8 @@ class Node:
     def _generate(self, result_path: Path, already_reached: Set) -> bool:
         already_reached.add(id(self))
 
+        if isinstance(self, Leaf):
+            return self.is_valid
         if not isinstance(self, Decision):
             return True
         if not self.outgoing_transitions:
